@@ -325,6 +325,9 @@ func (x *Exec) merge(a, b *State) *State {
 	for o, va := range a.vars {
 		vb, ok := b.vars[o]
 		if !ok {
+			if debugHavoc && strings.HasPrefix(o.Name(), "pvc_g_") {
+				fmt.Fprintln(os.Stderr, "pvc: ghost variable missing on one side of a merge:", o.Name())
+			}
 			continue
 		}
 		if va == vb {
@@ -334,8 +337,11 @@ func (x *Exec) merge(a, b *State) *State {
 		func() {
 			defer func() {
 				if r := recover(); r != nil {
-					if _, ok := r.(unsupported); ok {
+					if u, ok := r.(unsupported); ok {
 						// cannot merge: drop the variable (reads will fail as unsupported)
+						if debugHavoc {
+							fmt.Fprintln(os.Stderr, "pvc: variable dropped at a merge:", o.Name(), u.msg)
+						}
 						return
 					}
 					panic(r)
@@ -921,6 +927,26 @@ func (x *Exec) ghostsTouched(c *Contract, nodes []ast.Node) map[string]bool {
 	return out
 }
 
+// assignOrdinal: the position (1-based, source order) of assignment n among the
+// assignments of the contract's body whose left-hand side has the given text.
+func (w *World) assignOrdinal(c *Contract, n *ast.AssignStmt, text string) int {
+	k, found := 0, 0
+	ast.Inspect(c.Body, func(nd ast.Node) bool {
+		if as, ok := nd.(*ast.AssignStmt); ok && found == 0 {
+			for _, l := range as.Lhs {
+				if exprText(w.Fset, l) == text {
+					k++
+					if as == n {
+						found = k
+					}
+				}
+			}
+		}
+		return true
+	})
+	return found
+}
+
 // afterAssign applies the "on assign" ghost directives of the enclosing contract.
 func (x *Exec) afterAssign(s *State, fr *Frame, n *ast.AssignStmt) {
 	cf := x.contractFrame(fr)
@@ -932,6 +958,9 @@ func (x *Exec) afterAssign(s *State, fr *Frame, n *ast.AssignStmt) {
 		text := exprText(x.w.Fset, l)
 		for _, oa := range c.OnAssign {
 			if oa.Dir.CallText != text {
+				continue
+			}
+			if oa.Dir.CallOrd != 0 && x.w.assignOrdinal(c, n, text) != oa.Dir.CallOrd {
 				continue
 			}
 			for _, g := range c.Ghost {
